@@ -41,9 +41,10 @@ def candidates(seed):
     p = f"/tmp/seedres/{seed}.log"
     names = []
     if os.path.exists(p):
-        for m in re.finditer(r"^  obligation ([^:]+):", open(p).read(), re.M):
-            if m.group(1) not in names:
-                names.append(m.group(1))
+        for m in re.finditer(r"^(?:  obligation ([^:]+):|\[C\d\d\] ([^ :]+): violation)", open(p).read(), re.M):
+            n = m.group(1) or m.group(2)
+            if n not in names:
+                names.append(n)
     return names[:2]
 
 
